@@ -20,10 +20,10 @@ def oracle(ctx, V, obs, ktypes, tag):
             n_viol += 1
             if v["mut"]:
                 key = "Mutate%s:mutated-transaction-accepted" % v["mut"].capitalize()
-            elif v["dup"] and v["v"]:
-                key = KNOWN_DUP
+            elif v["dup"] and all_sets_signed_by_position(tx):
+                key = KNOWN_DUP          # fixed by 900ecb87: reappears only if position masking returns
             else:
-                key = "VerifyTransaction:unsound-accept:%s" % ("duplicate-key-beyond-position-masking" if v["dup"] else
+                key = "VerifyTransaction:unsound-accept:%s" % ("duplicate-key-other" if v["dup"] else
                                                                   ("payer-or-count" if all_sets_signed(tx) else "set-without-m-distinct-valid-signers"))
             ctx.violation(key, {"tx": sc.short_tx(tx), "ktypes": ktypes, "signed": o["signed"], "payer": o["payer"]},
                           {"ktypes": ktypes, "tx": tx, "model_accepts": v["v"], "property_allows": v["ok"]})
@@ -33,6 +33,22 @@ def oracle(ctx, V, obs, ktypes, tag):
         ctx.infra("MODEL-DRIFT (%s, %s): real VerifyTransaction differs from SigTx's model on %d/%d rows without violating the property, e.g. %s"
                   % (tag, ktypes, len(drift), len(V), drift[:3]))
     return n_acc, n_viol
+
+
+def all_sets_signed_by_position(tx):
+    """every set would pass a position-masking verifier: the first m signatures are valid signatures of listed keys,
+    each key used at most as often as it is listed"""
+    for s in tx["sets"]:
+        vals = [k["v"] for k in s["keys"]]
+        m = 1 if s["form"] == "single" else s["m"]
+        if m < 1 or len(s["sigs"]) < m:
+            return False
+        avail = list(vals)
+        for g in s["sigs"][:m]:
+            if g["kind"] != "g" or g["by"] not in avail:
+                return False
+            avail.remove(g["by"])
+    return True
 
 
 def all_sets_signed(tx):
@@ -78,13 +94,14 @@ def oracle_mut(ctx, M, mobs, ktypes):
 
 def run(ctx):
     t = "t" if ctx.thorough else ""
-    # 1. the design (deviation switches off): the property is an invariant of the specification
-    # 2. the code as it is (MaskByPosition on): every unsound acceptance is explained by the named deviation; rows exported
-    # (the two TLC runs and the Go build run side by side)
-    d, (r, rows), binary = sc.parallel(
-        lambda: sc.run_tlc_plain(ctx, "SigTx_MC", "SigTx_C16d%s.cfg" % t, "design: Sound, MutatedRejected, SameSigners"),
+    if ctx.replay_in:
+        return replay(ctx)
+    # Deviation switches OFF (MaskByPosition was repaired by 900ecb87): the property itself (Sound, MutatedRejected) is
+    # an invariant of the model of the code, and the same run exports the rows (TLC and the Go build side by side)
+    (r, rows), binary = sc.parallel(
         lambda: sc.run_tlc_rows(ctx, "SigTx_MC", "SigTx_C16%s.cfg" % t),
         lambda: ctx.go_test_bin("core/validation", harness="b_sig_validation"))
+    d = r
     nexec = nmut = ntried = nacc = 0
     cand = 0
     per_kt = {}
@@ -131,9 +148,32 @@ def run(ctx):
         "rows_executed_on_VerifyTransaction": nexec, "accepted_by_real_code": nacc,
         "mutation_rows": nmut, "byte_mutations_tried": ntried,
         "tlc_candidates_against_property": cand, "per_key_types": per_kt,
-        "design_states": d.distinct if d else 0, "exhaustive": True,
+        "exhaustive": True, "deviation_switches": {"MaskByPosition": False, "RawScriptFallback": False},
         "constants": {"cfg": "SigTx_C16%s.cfg" % t, "keys": 3, "max_keys_per_script": 3, "max_sigs": 3, "sets": "1 (full), 2 (family of 9), 0/16/17"},
     }, ["ideal cryptography: a signature verifies iff it was made by that key over exactly that message",
         "mutations are applied to transactions in builder shape (each set carries exactly m signatures); surplus signatures are never examined by the validator and are outside the mutation claim",
         "abstract keys are bound to real keys of every supported type (P-224/256/384/521, secp256k1, SM2, Ed25519, Ethereum-type); all rows with P-256, seeded samples with the others",
         "byte mutations XOR one byte with 0x01, 0x04, 0x80 and a seeded value at the first two, the last and seeded positions of the named region (every position for a subset of rows)"])
+
+
+def replay(ctx):
+    """bin/check C16 --replay <file>: re-execute the recorded input on the real code and re-apply the oracle"""
+    import json, sys
+    rec = json.load(open(ctx.replay_in))["replay"]
+    binary = ctx.go_test_bin("core/validation", harness="b_sig_validation")
+    if not binary:
+        sys.exit(2)
+    kt = rec["ktypes"]
+    if "mutation" in rec:
+        m = dict(tx=rec["tx"], name=rec["mutation"]["name"], i=rec["mutation"]["i"], j=rec["mutation"]["j"], full=True)
+        obs, mobs = sc.run_sigtx(ctx, binary, kt, [], [m], "replay")
+        bad = mobs is not None and bool(mobs[0]["accepted"])
+        what = mobs[0]["accepted"][:3] if mobs else None
+    else:
+        obs, mobs = sc.run_sigtx(ctx, binary, kt, [rec["tx"]], [], "replay")
+        bad = obs is not None and obs[0]["acc"] and not rec["property_allows"]
+        what = obs[0] if obs else None
+    if obs is None and mobs is None:
+        sys.exit(2)
+    print("REPLAY property=C16 %s: %s" % ("VIOLATION reproduced" if bad else "not reproduced", what))
+    sys.exit(1 if bad else 0)
